@@ -11,10 +11,13 @@ EXTENDS Server, Json
 CONSTANTS Mode,        \* "conn" | "dgram"
           NConn, MaxReq, QCapG, Kinds, MaxOps, MaxCredit, MaxTick,
           Limit,       \* max_concurrent_connections of the stream server
+          AAM,         \* accept_connections_at_max of the stream server
+          WithSReconf, \* TRUE: StreamServer::reconfigure among the stimuli
           Defaults     \* TRUE: the servers are built without any explicit configuration;
                        \* one half tick is then half the documented timeout (15 s)
 
 ASSUME Defaults => /\ QCapG = Doc.max_queued_responses
+                   /\ AAM = Doc.accept_connections_at_max
                    /\ Limit = Doc.max_concurrent_connections
                    /\ Doc.idle_timeout = Doc.response_write_timeout
 
@@ -25,8 +28,17 @@ Conns == 1..NConn
 Op(o, c, what, r, svc) == [op |-> o, c |-> c, what |-> what, r |-> r, svc |-> svc]
 
 DQ == {"D_queue_full_drop"}
+\* the server's accept loop (stream.rs run_until_error): limit / aam the
+\* configuration in force (StreamServer::reconfigure), armed: the accept arm
+\* of the select is enabled, parked: connection attempts waiting in the
+\* listener while it is not
+Srv0 == [limit |-> Limit, aam |-> AAM, armed |-> TRUE, parked |-> <<>>, down |-> FALSE]
+\* three copies of the world run in lock step: the ideal one, the one with
+\* D_queue_full_drop, the one with D_accept_not_resumed
 W0 == [ci |-> [c \in Conns |-> InitConn({}, QCapG)],
        cd |-> [c \in Conns |-> InitConn(DQ, QCapG)],
+       ca |-> [c \in Conns |-> InitConn({}, QCapG)],
+       si |-> Srv0, sd |-> Srv0, sa |-> Srv0, nsre |-> 0,
        sent |-> [c \in Conns |-> 0], down |-> FALSE, credit |-> 0, tick |-> 0, aerr |-> 0,
        dg |-> InitDg]
 
@@ -39,23 +51,68 @@ Stim(s, op) ==
     [] op.op = "abort"    -> IF s.st = "none" \/ s.ab THEN s ELSE EnvAbort(s)
     [] OTHER              -> s
 
-\* stream.rs: setup future failed, or the server is at its connection limit
-\* (live connections, at quiescence exactly those that are open): the
-\* stream is dropped; otherwise a Connection runs on it
-ApplyOpen(f, op) ==
-  LET live == Cardinality({c \in Conns : f[c].st = "open"})
-  IN IF f[op.c].st # "none" THEN f
-     ELSE IF op.what = "fail" \/ live >= Limit
-          THEN [f EXCEPT ![op.c] = EnvNoConn(f[op.c])]
-          ELSE [f EXCEPT ![op.c] = Settle(EnvOpen(f[op.c]))]
+\* One world of the stream server: x = [f |-> connections, s |-> accept loop].
+Live(f) == Cardinality({c \in Conns : f[c].st = "open"})
 
-ApplyConns(f, op) ==
-  CASE op.op = "open" -> ApplyOpen(f, op)
-    [] op.op = "accepterr" -> f          \* a failed accept() changes nothing
-    [] op.op = "wait" -> f               \* less than half a tick of time passes (see W)
-    [] op.op = "halftick" -> [c \in Conns |-> Settle(EnvHalfTick(f[c]))]
-    [] op.op = "shutdown" -> [c \in Conns |-> Settle(EnvShutdown(f[c]))]
-    [] OTHER              -> [f EXCEPT ![op.c] = Settle(Stim(f[op.c], op))]
+\* stream.rs: a connection attempt reaches an enabled accept arm.  Setup
+\* future failed, or the server is at its connection limit (live
+\* connections, at quiescence exactly those that are open): the stream is
+\* dropped; otherwise a Connection runs on it.  Then the loop goes round
+\* and evaluates accepting_connections() -- with the count as it was before
+\* the new handler ran.
+Arrive(x, c, what) ==
+  LET live == Live(x.f)
+      f2 == IF what = "fail" \/ live >= x.s.limit
+            THEN [x.f EXCEPT ![c] = EnvNoConn(x.f[c])]
+            ELSE [x.f EXCEPT ![c] = Settle(EnvOpen(x.f[c]))]
+  IN [f |-> f2, s |-> [x.s EXCEPT !.armed = (live < x.s.limit) \/ x.s.aam]]
+
+\* poll_accept fails (ECONNABORTED, EMFILE ...): logged, the loop goes round
+AcceptErr(x) == [x EXCEPT !.s.armed = (Live(x.f) < x.s.limit) \/ x.s.aam]
+
+\* the loop went round with the accept arm enabled: whoever waits in the
+\* listener is taken on in order, as long as the arm stays enabled
+RECURSIVE Drain(_)
+Drain(x) ==
+  IF x.s.down \/ ~x.s.armed \/ x.s.parked = <<>> THEN x
+  ELSE LET p == Head(x.s.parked)
+           y == [x EXCEPT !.s.parked = Tail(@)]
+       IN Drain(IF p.what = "err" THEN AcceptErr(y) ELSE Arrive(y, p.c, p.what))
+
+\* the loop goes round: a command arrived; (ideal) a connection ended
+Wake(x) == IF x.s.down THEN x
+           ELSE Drain([x EXCEPT !.s.armed = (Live(x.f) < x.s.limit) \/ x.s.aam])
+
+Known(x, c) == x.f[c].st # "none" \/ \E i \in 1..Len(x.s.parked) : x.s.parked[i].c = c
+
+ApplyOpenX(x, op) ==
+  IF Known(x, op.c) \/ x.s.down THEN x
+  ELSE IF x.s.armed THEN Arrive(x, op.c, op.what)
+  ELSE [x EXCEPT !.s.parked = Append(@, [c |-> op.c, what |-> op.what])]
+
+\* dvA: D_accept_not_resumed in force (nothing wakes the accept loop when a
+\* connection ends)
+ApplyX(x, op, dvA) ==
+  LET y == CASE op.op = "open" -> ApplyOpenX(x, op)
+             \* a failed accept() changes nothing but the loop going round; while
+             \* the accept arm is disabled nobody sees it yet
+             [] op.op = "accepterr" -> IF x.s.down THEN x
+                                       ELSE IF x.s.armed THEN AcceptErr(x)
+                                       ELSE [x EXCEPT !.s.parked = Append(@, [c |-> 0, what |-> "err"])]
+             [] op.op = "wait" -> x              \* less than half a tick of time passes (see W)
+             [] op.op = "halftick" -> [x EXCEPT !.f = [c \in Conns |-> Settle(EnvHalfTick(x.f[c]))]]
+             [] op.op = "shutdown" -> [x EXCEPT !.f = [c \in Conns |-> Settle(EnvShutdown(x.f[c]))],
+                                               !.s.down = TRUE, !.s.armed = FALSE]
+             \* StreamServer::reconfigure: the server takes the new limit / aam;
+             \* every connection takes the connection configuration it carries
+             \* (the one the server was built with: idle timeout as configured)
+             [] op.op = "sreconf" ->
+                  Wake([x EXCEPT !.s.limit = op.r, !.s.aam = (op.what = "aam"),
+                                 !.f = [c \in Conns |-> IF x.f[c].st = "open"
+                                                         THEN Settle([x.f[c] EXCEPT !.itmo = IdleDefault])
+                                                         ELSE x.f[c]]])
+             [] OTHER -> [x EXCEPT !.f[op.c] = Settle(Stim(x.f[op.c], op))]
+  IN IF ~dvA /\ ~y.s.armed /\ Live(y.f) < Live(x.f) THEN Wake(y) ELSE y
 
 ApplyDg(d, op) ==
   CASE op.op = "recv"    -> DgSettle(DgRecv(d, op.what, op.r, op.svc))
@@ -69,7 +126,12 @@ Apply(x, op) ==
   IF Mode = "dgram"
   THEN [x EXCEPT !.dg = ApplyDg(x.dg, op),
                  !.sent[1] = IF op.op = "recv" THEN @ + 1 ELSE @]
-  ELSE [x EXCEPT !.ci = ApplyConns(x.ci, op), !.cd = ApplyConns(x.cd, op),
+  ELSE LET i == ApplyX([f |-> x.ci, s |-> x.si], op, FALSE)
+           d == ApplyX([f |-> x.cd, s |-> x.sd], op, FALSE)
+           a == ApplyX([f |-> x.ca, s |-> x.sa], op, TRUE)
+       IN
+       [x EXCEPT !.ci = i.f, !.cd = d.f, !.ca = a.f, !.si = i.s, !.sd = d.s, !.sa = a.s,
+                 !.nsre = IF op.op = "sreconf" THEN @ + 1 ELSE @,
                  !.sent = IF op.op = "send" THEN [@ EXCEPT ![op.c] = @ + 1] ELSE @,
                  !.down = @ \/ op.op = "shutdown",
                  !.credit = IF op.op = "credit" THEN @ + 1 ELSE @,
@@ -80,9 +142,16 @@ Apply(x, op) ==
 ConnOps(x) ==
   LET S(c) == x.cd[c]
       canSend(c) == S(c).st = "open" /\ ~S(c).ab /\ ~TailPartial(S(c)) /\ x.sent[c] < MaxReq
+      worlds == {[f |-> x.ci, s |-> x.si], [f |-> x.cd, s |-> x.sd], [f |-> x.ca, s |-> x.sa]}
+      \* a fresh connection id; at most one attempt waits in the listener
+      canOpen(c) == /\ \A y \in worlds : ~Known(y, c)
+                    /\ \/ \A y \in worlds : y.s.armed
+                       \/ \A y \in worlds : \A i \in 1..Len(y.s.parked) : y.s.parked[i].what = "err"
   IN UNION {
-       {Op("open", c, wh, 0, "") : c \in {d \in Conns : S(d).st = "none" /\ ~x.down},
+       {Op("open", c, wh, 0, "") : c \in {d \in Conns : canOpen(d) /\ ~x.down},
                                    wh \in {"ok", "ok", "fail"}},
+       IF WithSReconf /\ ~x.down /\ x.nsre < 2
+         THEN {Op("sreconf", 0, wh, lim, "") : wh \in {"aam", "noaam"}, lim \in {1, 2, 3}} ELSE {},
        {Op("send", c, wh, x.sent[c] + 1, svc) :
             c \in {d \in Conns : canSend(d)}, wh \in {"query", "partial"}, svc \in Kinds},
        {Op("send", c, wh, x.sent[c] + 1, "") :
@@ -121,6 +190,8 @@ Ops(x) == IF Mode = "dgram" THEN DgOps(x) ELSE ConnOps(x)
 
 ProjI(x) == IF Mode = "dgram" THEN [sent |-> DgProj(x.dg), alive |-> x.dg.alive]
             ELSE [cs |-> [c \in Conns |-> Proj(x.ci[c])], alive |-> TRUE]
+ProjA(x) == IF Mode = "dgram" THEN [sent |-> DgProj(x.dg), alive |-> x.dg.alive]
+            ELSE [cs |-> [c \in Conns |-> Proj(x.ca[c])], alive |-> TRUE]
 ProjD(x) == IF Mode = "dgram" THEN [sent |-> DgProj(x.dg), alive |-> x.dg.alive]
             ELSE [cs |-> [c \in Conns |-> Proj(x.cd[c])], alive |-> TRUE]
 
@@ -129,15 +200,16 @@ Next == /\ Len(hist) < MaxOps
         /\ \E op \in Ops(w) :
              LET x == Apply(w, op)
              IN /\ w' = x
-                /\ hist' = Append(hist, [op |-> op, pi |-> ProjI(x), pd |-> ProjD(x)])
+                /\ hist' = Append(hist, [op |-> op, pi |-> ProjI(x), pd |-> ProjD(x), pa |-> ProjA(x)])
 Spec == Init /\ [][Next]_vars
 
 CaseOf(h) ==
   [in  |-> IF Mode = "dgram"
            THEN [kind |-> "dgram", hint |-> Doc.udp_max_response_size, defaults |-> Defaults, ops |-> [i \in 1..Len(h) |-> h[i].op]]
-           ELSE [kind |-> "conn", q |-> QCapG, nc |-> NConn, limit |-> Limit, defaults |-> Defaults, ops |-> [i \in 1..Len(h) |-> h[i].op]],
+           ELSE [kind |-> "conn", q |-> QCapG, nc |-> NConn, limit |-> Limit, aam |-> AAM, defaults |-> Defaults, ops |-> [i \in 1..Len(h) |-> h[i].op]],
    exp |-> [i \in 1..Len(h) |-> h[i].pi],
-   dev |-> [D_queue_full_drop |-> [i \in 1..Len(h) |-> h[i].pd]]]
+   dev |-> [D_queue_full_drop |-> [i \in 1..Len(h) |-> h[i].pd],
+            D_accept_not_resumed |-> [i \in 1..Len(h) |-> h[i].pa]]]
 
 \* one case per maximal behaviour
 Emit == (Len(hist) = MaxOps \/ (hist # <<>> /\ Ops(w) = {})) => PrintT("CASE " \o ToJson(CaseOf(hist)))
@@ -147,7 +219,7 @@ RECURSIVE Run(_, _, _)
 Run(x, ops, h) ==
   IF ops = <<>> THEN h
   ELSE LET y == Apply(x, Head(ops))
-       IN Run(y, Tail(ops), Append(h, [op |-> Head(ops), pi |-> ProjI(y), pd |-> ProjD(y)]))
+       IN Run(y, Tail(ops), Append(h, [op |-> Head(ops), pi |-> ProjI(y), pd |-> ProjD(y), pa |-> ProjA(y)]))
 
 O(c)  == Op("open", c, "ok", 0, "")
 OF(c) == Op("open", c, "fail", 0, "")     \* connection setup (handshake) fails
@@ -246,6 +318,28 @@ Directed ==
      <<O(1), Cr(1), Cr(1), Cr(1), Cr(1), Q(1,1,"ffail"), Q(1,2,"refuse"), Q(1,3,"nimp"), Rl(1,3), Rl(1,1), Rl(1,2),
        Q(1,4,"single"), Rl(1,4)>> >>
 
+\* accept_connections_at_max = false (Limit = 2): at the limit the server
+\* stops accepting; "no new connections will be accepted until the number
+\* of concurrent connections falls below the limit" -- then they are
+SRc(lim, wh) == Op("sreconf", 0, wh, lim, "")
+DirectedNoAam ==
+  << \* both slots taken, a third client is turned away, a fourth waits; one
+     \* connection ends: the fourth is served
+     <<O(1), O(2), O(3), O(4), Cr(4), Ab(1), Q(4,1,"single"), Rl(4,1), Cr(2), Q(2,1,"single"), Rl(2,1)>>,
+     \* ... ends by idle timeout, by a too-short message, by shutdown of the peer
+     <<O(1), O(2), O(3), HT, Cr(2), Q(2,1,"single"), Rl(2,1), O(4), HT, Cr(4), Q(4,1,"single"), Rl(4,1)>>,
+     <<O(1), O(2), O(3), Sh(1), O(4), Cr(4), Q(4,1,"single"), Rl(4,1), Sh(2), Ab(4), O(5), Cr(5), Rp(5,1)>>,
+     \* every connection has gone: the server is empty and a new client comes
+     <<O(1), O(2), O(3), Ab(1), Ab(2), O(4), Cr(4), Q(4,1,"single"), Rl(4,1)>>,
+     \* a command makes the loop go round (today's only way out)
+     <<O(1), O(2), O(3), Ab(1), O(4), SRc(2, "noaam"), Cr(4), Q(4,1,"single"), Rl(4,1)>>,
+     \* the limit raised / lowered / aam switched while running
+     <<O(1), O(2), O(3), SRc(3, "noaam"), O(4), Cr(4), Q(4,1,"single"), Rl(4,1), O(5), Ab(4), Cr(5), Q(5,1,"single"), Rl(5,1)>>,
+     <<O(1), SRc(1, "aam"), O(2), Cr(1), Q(1,1,"single"), Rl(1,1), Ab(1), O(3), Cr(3), Q(3,1,"single"), Rl(3,1)>>,
+     <<O(1), O(2), SRc(1, "noaam"), O(3), Ab(1), Ab(2), Cr(3), Q(3,1,"single"), Rl(3,1), O(4), Ab(3), O(5), Cr(5), Rp(5,1)>>,
+     \* a waiting client is not lost by a shutdown of the server either: it is never served
+     <<O(1), O(2), O(3), O(4), SD, Cr(1), Q(1,1,"single")>> >>
+
 \* servers built with their default configuration: documented timeouts (a
 \* slow reader well below the write timeout loses nothing), queue of 10
 DirectedDefaults ==
@@ -297,6 +391,7 @@ EmitDirected ==
   hist = <<>> =>
     LET D == IF Mode = "dgram" THEN DgDirected
              ELSE IF Defaults THEN DirectedDefaults
+             ELSE IF ~AAM THEN SelectSeq(DirectedNoAam, LAMBDA ops : \A i \in 1..Len(ops) : ops[i].c <= NConn)
              ELSE SelectSeq(Directed, LAMBDA ops : \A i \in 1..Len(ops) : ops[i].c <= NConn)
     IN /\ \A i \in 1..Len(D) : PrintT("CASE " \o ToJson(CaseOf(Run(W0, D[i], <<>>))))
        \* the defaults themselves, where the configuration types have getters
